@@ -112,6 +112,20 @@ class DataFn(object):
         return "DataFn(%r)" % self.name
 
 
+class StateCall(object):
+    """A callable with state (a running index added to the data): each copy of an element
+    holding it owns its own state."""
+
+    def __init__(self):
+        self.n = 0
+
+    def __call__(self, v):
+        self.n += 1
+        if has_ctx(v):
+            return (_num(v[0]) + 1000 * self.n, v[1])
+        return _num(v) + 1000 * self.n
+
+
 def func(name):
     return Fn(name)
 
@@ -164,6 +178,8 @@ def build(r):
     k = r[0]
     if k == "call":
         return func(r[1])
+    if k == "statecall":
+        return StateCall()
     if k == "var":
         return lena.variables.Variable(r[1], DataFn(r[2]), **(r[3] if len(r) > 3 else {}))
     if k == "filter":
